@@ -62,7 +62,7 @@ def run_req(cmds, delays, values=None, rec=None, iw=8, vw=16):
         if kind in 'IOK':
             chars.append((ord(kind), None))
         digs = []
-        for k in range(nd):
+        for k in range(nd if isinstance(nd, int) else 0):
             name = 'd%d_%d' % (ci, k)
             if values is None:
                 x, v = core.fresh(name, 8)
@@ -73,6 +73,10 @@ def run_req(cmds, delays, values=None, rec=None, iw=8, vw=16):
             else:
                 digs.append(values[name])
                 chars.append((values[name], name))
+        if isinstance(nd, str):
+            # a command with fixed digits (e.g. K2; in the middle of a sequence, so that the handshake stays data independent)
+            digs = [z3.BitVecVal(ord(ch), 8) for ch in nd]
+            chars.extend((ord(ch), None) for ch in nd)
         numbers.append(digs)
         chars.append((ord({'I': '=', 'V': '!', 'O': '?', 'K': ';'}[kind]), None))
     trace = []
@@ -141,7 +145,7 @@ def req_task(p, cfg, rec):
 
     def replay(values):
         tr, _, nums, ps, nch = run_req(cmds, delays, values=values, iw=iw, vw=vw)
-        exp = expected_events(cmds, [[values['d%d_%d' % (ci, k)] for k in range(nd)] for ci, (kind, nd) in enumerate(cmds)], iw, vw)
+        exp = expected_events(cmds, [digits_of(values, ci, nd) for ci, (kind, nd) in enumerate(cmds)], iw, vw)
         got = observed_events(tr)
         return None if got == exp else {'commands': render(cmds, values), 'expected_events': exp, 'observed_events': got}
     # expected number of pulses per line
@@ -163,7 +167,7 @@ def req_task(p, cfg, rec):
         val = trace[t][data]
         expt = number_term(numbers[ci], width)
         from .seq import neq
-        p.prove('command %d (%s, %d digits): %s carries the transmitted number at its pulse' % (ci, kind, nd, data), neq(val, expt),
+        p.prove('command %d (%s, %s digits): %s carries the transmitted number at its pulse' % (ci, kind, nd, data), neq(val, expt),
                 inputs=vars_, replay=replay, canary=neq(val, expt ^ 1))
         if kind == 'O':
             sr = got['start_resp']
@@ -212,10 +216,16 @@ def observed_events(trace):
     return ev
 
 
+def digits_of(values, ci, nd):
+    if isinstance(nd, str):
+        return [ord(ch) for ch in nd]
+    return [values['d%d_%d' % (ci, k)] for k in range(nd)]
+
+
 def render(cmds, values):
     s = ''
     for ci, (kind, nd) in enumerate(cmds):
-        ds = ''.join(chr(values['d%d_%d' % (ci, k)]) for k in range(nd))
+        ds = ''.join(chr(x) for x in digits_of(values, ci, nd))
         s += {'I': 'I%s=', 'V': '%s!', 'O': 'O%s?', 'K': 'K%s;'}[kind] % ds
     return s
 
@@ -356,11 +366,15 @@ def tasks_for(tier):
     delay_sets = [(0,), (1,), (0, 3, 1)] if quick else [(0,), (1,), (2,), (0, 3, 1), (5, 0, 0, 2), (7,)]
     singles = [[('I', n)] for n in (1, 2)] + [[('V', n)] for n in (1, 2, 3, 4)] + [[('O', n)] for n in (1, 2)]
     doubles = [[('I', 1), ('V', 2)], [('I', 2), ('V', 4)], [('O', 1), ('I', 1)], [('V', 3), ('O', 2)], [('V', 1), ('V', 2)]]
+    # a store that reuses the input selected earlier, after an output request / after clock pulses / after another store
+    doubles += [[('O', 1), ('V', 2)], [('K', '2'), ('V', 2)], [('I', 1), ('V', 1), ('O', 1), ('V', 2)], [('I', 1), ('V', 2), ('K', '1'), ('V', 2), ('O', 1)],
+                [('K', '3'), ('I', 1), ('K', '0'), ('O', 1)]]
     if not quick:
         doubles += [[('I', 1), ('V', 4), ('O', 1)], [('O', 2), ('O', 1)], [('I', 2), ('I', 1)], [('V', 4), ('V', 4)]]
     for cmds in singles + doubles:
         for dl in delay_sets:
-            nm = ' '.join({'I': 'I<%dh>=', 'V': '<%dh>!', 'O': 'O<%dh>?', 'K': 'K<%dh>;'}[k] % nd for k, nd in cmds)
+            nm = ' '.join(({'I': 'I<%dh>=', 'V': '<%dh>!', 'O': 'O<%dh>?', 'K': 'K<%dh>;'}[k] % nd) if isinstance(nd, int) else
+                          ({'I': 'I%s=', 'V': '%s!', 'O': 'O%s?', 'K': 'K%s;'}[k] % nd) for k, nd in cmds)
             t.append(('CMDRequest %s delays %s' % (nm, ','.join(map(str, dl))), req_task, {'cmds': cmds, 'delays': list(dl)}))
     for dl in delay_sets[:2 if quick else 4]:
         t.append(('CMDRequest K<1h>; n<=4 symbolic delays %s' % ','.join(map(str, dl)), kcount_task, {'nmax': 4, 'delays': list(dl)}))
